@@ -15,15 +15,93 @@ returns mu + z*s for a scripted z, math.exp is logged with its argument.
 """
 import array
 import math
+import os
+import re
 import traceback
 import warnings
 from fractions import Fraction
 
+import vlib
 from vlib import cfloat, clist, cnat
 
 U = Fraction(1, 2 ** 53)
 TINY = Fraction(1, 2 ** 1074)
 ONE_MINUS = 1.0 - 2.0 ** -53
+
+
+# ----------------------------------------------------------------------------------------------
+# tie (T): regeneration of coq/Gen/C10_gen.v from the working tree
+# ----------------------------------------------------------------------------------------------
+GEN_FUNCTIONS = ["cxBlend", "cxSimulatedBinary", "cxSimulatedBinaryBounded", "mutGaussian", "mutPolynomialBounded",
+                 "cxESBlend", "mutESLogNormal"]
+
+
+def regen(repo=None):
+    """Regenerate coq/Gen/C10_gen.v from deap/tools/crossover.py and deap/tools/mutation.py of the working tree.
+    Returns (ok, message); on a refusal the previous file (if any) is left in place and not used by this run."""
+    import c10_py2coq
+    repo = repo or vlib.REPO
+    try:
+        txt = c10_py2coq.translate_repo(repo)
+    except c10_py2coq.Refuse as e:
+        return False, "translator refused %s%s" % ("%s: " % e.fn if e.fn else "", e)
+    except (OSError, UnicodeDecodeError, RecursionError, ValueError) as e:
+        return False, "translator refused: %r" % (e,)
+    gen = os.path.join(vlib.COQ, "Gen")
+    with vlib.BuildLock():
+        os.makedirs(gen, exist_ok=True)
+        p = os.path.join(gen, "C10_gen.v")
+        old = open(p).read() if os.path.exists(p) else None
+        if old != txt:
+            open(p, "w").write(txt)
+    return True, "regenerated"
+
+
+def broken_lemmas(log):
+    """Names of the lemmas of the tie (T) files in which the build log reports an error."""
+    out = []
+    for f, line in re.findall(r'File "\./((?:Proofs|Props|Corr|Gen)/C10_gen[A-Za-z_]*\.v)", line (\d+)', log or ""):
+        name = None
+        try:
+            src = open(os.path.join(vlib.COQ, f)).read().splitlines()
+            for l in src[:int(line)][::-1]:
+                m = re.match(r"\s*(?:Lemma|Theorem|Definition)\s+([A-Za-z0-9_']+)", l)
+                if m:
+                    name = m.group(1)
+                    break
+        except OSError:
+            pass
+        out.append("%s:%s%s" % (f, line, " (%s)" % name if name else ""))
+    return out
+
+
+def tie_T(run):
+    """Regenerate, build the equivalence and the restated theorems.  Returns True when the regenerated definitions can
+    be evaluated by the correspondence (coq/Corr/C10_gen.vo was built)."""
+    ok, msg = regen()
+    if not ok:
+        run.notes.append("tie: correspondence-only (%s)" % msg)
+        run.extra_cov["tie"] = "correspondence-only (%s)" % msg
+        return False
+    nbroken = len(run.broken)
+    built = run.build_props(props="Props/C10_gen.v", extra=["Corr/C10_gen.v"])
+    if built:
+        # the float-level clamp theorems on the regenerated definitions
+        built = run.build_props(props="Props/C10_gen_float.v")
+    if built:
+        run.notes.append("tie: regenerated (%s: regenerated definitions proved equal to the hand model for every input, "
+                         "theorems restated on them)" % ", ".join(GEN_FUNCTIONS))
+        run.extra_cov["tie"] = "regenerated + correspondence"
+        run.trusted.append("translator harness/c10_py2coq.py and its signature table (deap/tools/crossover.py, mutation.py -> "
+                           "coq/Gen/C10_gen.v), run-time library coq/Model/C10_PyRt.v; equivalence to the model proved in "
+                           "Proofs/C10_gen_equiv.v on every run; the regenerated definitions are also evaluated against the implementation")
+        return True
+    where = broken_lemmas(run.broken[-1].get("log") if len(run.broken) > nbroken else "")
+    run.notes.append("tie: regenerated definitions no longer check against the model: %s" % (", ".join(where) or "build failed"))
+    run.extra_cov["tie"] = "regenerated, equivalence / restated theorems BROKEN: %s" % (", ".join(where) or "build failed")
+    # diagnosis: can the regenerated definitions at least be evaluated?
+    ok2, _ = vlib.make_targets(["Corr/C10_gen.vo"], timeout=1500)
+    return ok2
 
 
 # ----------------------------------------------------------------------------------------------
@@ -736,6 +814,11 @@ def main(run):
         "K = 3+2*alpha (blend, |gamma| <= 1+alpha) or K = 1+max(1, 1/(2(1-rand))) (SBX, bound on beta); exact over R",
     ]
     run.build_props()
+    # float level: the final clamp of the two bounded operators on binary64 (Props/C10_float.v)
+    if run.build_props(props="Props/C10_float.v"):
+        run.trusted.append("Coq standard library specification of primitive floats (FloatAxioms.ltb_spec, leb_spec, eqb_spec) for the "
+                           "float-level clamp theorems; Print Assumptions also lists the primitive float / int63 operations themselves")
+    gen_evaluable = tie_T(run)
     rng = run.rng
     terms, cases = [], []
     stats = {}
@@ -1162,3 +1245,8 @@ def main(run):
     run.search_fn = search
     run.extra_cov["per_operator"] = stats
     run.correspond("all", "C10", terms, cases, shard=300, requires=["From Coq Require Import PrimFloat."])
+    if gen_evaluable:
+        # the same cases through the definitions regenerated from the source on this run: validates the translator
+        # (and, when the equivalence broke, tells whether the regenerated definitions follow the implementation)
+        run.correspond("regenerated", "C10_gen", terms, cases, check="check_gen", shard=300,
+                       requires=["From Coq Require Import PrimFloat."])
